@@ -645,6 +645,8 @@ SEED_OPS = [
     ("lit_recv_pad_end", "'lit'.padEnd(a, b) + a.padEnd(3)"), ("lit_recv_replace_all", "'lit'.replaceAll(a, 'b') + 'lit'.replaceAll('x', 'y')"),
     ("escaped_method", "a.\\u0073ubstring(1)"), ("escaped_method_opt", "a?.\\u{74}rim()"), ("proto_mid_path", "K.prototype.name.trim() + o.prototype.x?.trim()"),
     ("same_path_twice", "o.x + o.x"), ("same_path_call", "o.x.concat(o.x, o.x)"), ("tpl_no_subst", "`use strict` + a"),
+    ("pluseq_paren", "(a) += b"), ("pluseq_paren_member", "(o.x) += f()"), ("pluseq_super", "super.x += b"), ("pluseq_super_computed", "super[k] += `t${a}`"),
+    ("pluseq_this", "this.x += a"), ("pluseq_private", "this.#p += a"),
     ("delete_optchain", "delete a?.b.substring(1).x"), ("delete_computed", "delete o[a + b]"),
     ("path_call_computed", "o[f()].substring.call(g(), 1)"), ("path_apply_computed", "o[f()].x.concat.apply(g(), [b])"),
     ("tpl_marker_line", "a + `\n//# sourceMappingURL=${b}`"), ("str_marker_line", "a.concat('\\\n//# sourceMappingURL=x.map')"),
@@ -674,6 +676,7 @@ CONTEXTS = [
     ("tagged_arg", "function m() { return tag`x${%s}`; }"), ("yield_arg", "function* m() { yield %s; }"), ("await_arg", "async function m() { await %s; }"),
     ("tpl_directive_like", "function m() { `use strict`; return %s; }"), ("tpl_directive_like_arrow", "const fn = () => { 'ngInject'; `use strict`; return %s; };"),
     ("async_arrow_concise", "function m() { return async () => await g() + %s; }"), ("seq_nested", "function m() { y = f() + (%s, b); }"),
+    ("derived_method", "class C extends K { #p = 1; m(a, b, k) { return %s; } }"),
     ("class_method", "class C { m() { return %s; } }"), ("class_static_field", "function m() { class C { static s = %s; } }"),
     ("class_field", "function m() { class C { f = %s; } }"), ("class_field_top", "class C { f = %s; }"),
     ("class_computed_key", "function m() { class C { [%s]() {} } }"),
